@@ -1,6 +1,85 @@
-(* C20 - placeholder until Proofs/EqFacts.v lands. *)
-From Coq Require Import List.
-From BB Require Import Base.Names.
-Theorem C20_placeholder : forall l, NoDup (uniquify l).
-Proof. exact uniquify_NoDup. Qed.
-Print Assumptions C20_placeholder.
+(* C20 - equality is observational: equal objects describe and forge identically.
+   Only statements; every proof is `exact <lemma>` into Proofs/EqFacts.v. *)
+From Coq Require Import String List ZArith QArith Bool.
+From BB Require Import Base.Names Base.Num Base.PyList Model.Types Model.Blueprint Model.Forge Model.Element
+  Model.PyVal Model.Sequence Model.Descr Proofs.BlueprintFacts Proofs.EqFacts.
+Import ListNotations.
+
+(* == compares every component: names, functions, arguments, durations, absolute and segment-bound markers *)
+Theorem C20_bp_eq_iff : forall a b, bp_eqb a b = true <-> bp_equiv a b.
+Proof. exact bp_eq_iff. Qed.
+
+(* ... so blueprints that differ in any single component compare unequal *)
+Theorem C20_bp_differs : forall a b,
+  (names a <> names b \/ funs a <> funs b \/ length (durs a) <> length (durs b) \/
+   (exists k x y, nth_error (durs a) k = Some x /\ nth_error (durs b) k = Some y /\ val_eqb x y = false) \/
+   (exists k x y, nth_error (args a) k = Some x /\ nth_error (args b) k = Some y /\ list_eqb val_eqb x y = false) \/
+   (exists k x y, nth_error (sm1 a) k = Some x /\ nth_error (sm1 b) k = Some y /\ mspec_eqb x y = false) \/
+   (exists k x y, nth_error (sm2 a) k = Some x /\ nth_error (sm2 b) k = Some y /\ mspec_eqb x y = false) \/
+   (exists k x y, nth_error (am1 a) k = Some x /\ nth_error (am1 b) k = Some y /\ mspec_eqb x y = false) \/
+   (exists k x y, nth_error (am2 a) k = Some x /\ nth_error (am2 b) k = Some y /\ mspec_eqb x y = false)) ->
+  bp_eqb a b = false.
+Proof. exact bp_differs. Qed.
+
+(* equal blueprints have equal descriptions (up to numeric equality of the numbers in them) ... *)
+Theorem C20_bp_eq_descr : forall a b, bp_eqb a b = true -> pv_equiv (bp_descr a) (bp_descr b).
+Proof. exact bp_eq_descr. Qed.
+
+(* ... and at equal sample rate forge to the same arrays: same error, or same counts / functions / markers with
+   numerically equal arguments *)
+Theorem C20_bp_eq_forge : forall a b SR SR',
+  bp_eqb a b = true -> (SR == SR')%Q ->
+  match forge_bp_with a SR (durs a), forge_bp_with b SR' (durs b) with
+  | Ok f, Ok g => forged_equiv f g
+  | Err e, Err e' => e = e'
+  | _, _ => False
+  end.
+Proof. exact bp_eq_forge. Qed.
+
+(* reflexive and symmetric (on objects whose numbers are numbers) *)
+Theorem C20_bp_eq_refl : forall a, bp_eqb a a = true.
+Proof. exact bp_eq_refl. Qed.
+Theorem C20_bp_eq_sym : forall a b, bp_eqb a b = bp_eqb b a.
+Proof. exact bp_eq_sym. Qed.
+
+(* a copy compares equal to its original (for every blueprint reachable through the public API: Inv) *)
+Theorem C20_copy_eq : forall b, Inv b -> bp_copy b = b /\ bp_eqb b (bp_copy b) = true.
+Proof. exact copy_eq. Qed.
+
+(* elements: == on blueprint channels is channel-wise blueprint equality plus the flags, whatever the channel order *)
+Theorem C20_el_eq : forall a b,
+  (forall c ch, In (c, ch) (edata a) -> exists x, ckind ch = KBp x) ->
+  (forall c ch, In (c, ch) (edata b) -> exists x, ckind ch = KBp x) ->
+  NoDup (map fst (edata a)) -> NoDup (map fst (edata b)) ->
+  (el_eqb a b = Ok true <->
+   (length (edata a) = length (edata b) /\
+    forall c ch, In (c, ch) (edata a) ->
+      exists ch' x y, el_lookup b c = Some ch' /\ ckind ch = KBp x /\ ckind ch' = KBp y /\ bp_eqb x y = true /\
+                      flags_eqb (cflags ch) (cflags ch') = true)).
+Proof. exact el_eq_iff. Qed.
+
+Theorem C20_el_eq_refl : forall a,
+  (forall c ch, In (c, ch) (edata a) -> exists x, ckind ch = KBp x) -> NoDup (map fst (edata a)) -> el_eqb a a = Ok true.
+Proof. exact el_eq_refl. Qed.
+
+(* sequences: == requires equal sequencing entries and equal AWG settings *)
+Theorem C20_seq_eq_components : forall a b,
+  seq_eqb a b = Ok true ->
+  specs_eqb (sspecs a) (sspecs b) = true /\ length (sseq a) = length (sseq b) /\ length (sdata a) = length (sdata b) /\
+  forall p q, In (p, q) (sseq a) -> exists q', alookup Z.eqb p (sseq b) = Some q' /\ sqing_eqb q q' = true.
+Proof. exact seq_eq_components. Qed.
+
+Theorem C20_sqing_eq : forall q q', sqing_eqb q q' = true <-> q = q'.
+Proof. exact sqing_eq_iff. Qed.
+
+Print Assumptions C20_bp_eq_iff.
+Print Assumptions C20_bp_differs.
+Print Assumptions C20_bp_eq_descr.
+Print Assumptions C20_bp_eq_forge.
+Print Assumptions C20_bp_eq_refl.
+Print Assumptions C20_bp_eq_sym.
+Print Assumptions C20_copy_eq.
+Print Assumptions C20_el_eq.
+Print Assumptions C20_el_eq_refl.
+Print Assumptions C20_seq_eq_components.
+Print Assumptions C20_sqing_eq.
